@@ -102,8 +102,10 @@ def main(argv):
         for n in generate(None):
             log(n)
     except Exception as e:
+        # the generated file is stale now: nothing below would say anything about the current source
         log("translator failed closed: %s" % e)
-        fails.append("gotrans")
+        log("FAIL l0check: gotrans")
+        return 1
     ok, out = vcheck.coq_make(COQ_TARGETS)
     if not ok:
         f, line = vcheck.coq_failed_file(out)
@@ -125,7 +127,14 @@ def main(argv):
         fails.append("audit")
     else:
         log("audit: clean")
-    if ok:
+    extracted = ok
+    if not ok:
+        # still validate the translator: the extraction depends on the generated file only.
+        # proof broken + validation agrees => the Go arithmetic changed; validation disagrees => translator bug
+        extracted, out2 = vcheck.coq_make(["Extract/ExtractGoArith.vo"])
+        if not extracted:
+            log(out2[-1500:])
+    if extracted:
         okh, exe, hout = vcheck.build_harness(RUN["harness"])
         if not okh:
             log("harness build failed:\n" + hout[-3000:])
